@@ -79,20 +79,22 @@ impl std::task::Wake for HookWaker {
     }
 }
 
-/// Registers the hook on `ctx.canceled()`; the returned future must be kept alive.
+/// Registers the hook on `ctx.canceled()`. The polled future (a waiter node of the context's
+/// semaphore) is leaked on purpose: it must stay registered after the registering task's body has
+/// returned (the task may itself be the first to fail), and it is unlinked by the first close().
 fn register_hook<'env>(
     ctx: &'env ctx::Ctx,
     sh: &Arc<Shared>,
     tid: usize,
     k: usize,
     stall_ms: u64,
-) -> Pin<Box<dyn Future<Output = ()> + Send + 'env>> {
+) {
     let sh2 = sh.clone();
     let waker: std::task::Waker = Arc::new(HookWaker(Mutex::new(Some(Box::new(move || {
         sh2.log([9, tid as i64, 0, 0]);
         sh2.hook_released.store(true, Ordering::SeqCst);
         let t0 = std::time::Instant::now();
-        while sh2.held_passed.load(Ordering::SeqCst) < k && t0.elapsed().as_millis() < 3000 {
+        while sh2.held_passed.load(Ordering::SeqCst) < k && t0.elapsed().as_millis() < 1000 {
             std::thread::yield_now();
         }
         std::thread::sleep(std::time::Duration::from_millis(stall_ms));
@@ -107,7 +109,7 @@ fn register_hook<'env>(
         // already cancelled: nothing will call the waker
         sh.hook_released.store(true, Ordering::SeqCst);
     }
-    fut
+    std::mem::forget(fut);
 }
 
 impl Shared {
@@ -172,7 +174,6 @@ fn run_async<'env>(
         let mut end_guard = unwind_log(&sh, [6, t, 2, 0]);
         sh.log([0, t, 0, 0]);
         let mut handles: HashMap<usize, scope::JoinHandle<'env, ()>> = HashMap::new();
-        let mut hooks = vec![];
         let n = sh.tasks[tid].acts.len();
         for pc in 0..n {
             match sh.pert(tid, pc) {
@@ -241,7 +242,7 @@ fn run_async<'env>(
                 Act::Panic => {
                     panic!("verif: scripted panic");
                 }
-                Act::Hook(k, ms) => hooks.push(register_hook(ctx, &sh, tid, *k, *ms)),
+                Act::Hook(k, ms) => register_hook(ctx, &sh, tid, *k, *ms),
                 Act::Held => {
                     while !sh.hook_released.load(Ordering::SeqCst) {
                         tokio::time::sleep(std::time::Duration::from_micros(50)).await;
@@ -251,7 +252,6 @@ fn run_async<'env>(
                 }
             }
         }
-        drop(hooks);
         end_guard.armed = false;
         sh.log([6, t, 0, 0]);
         Ok(())
@@ -271,7 +271,6 @@ fn run_blocking<'env>(
     let mut end_guard = unwind_log(&sh, [6, t, 2, 0]);
     sh.log([0, t, 0, 0]);
     let mut handles: HashMap<usize, scope::JoinHandle<'env, ()>> = HashMap::new();
-    let mut hooks = vec![];
     let n = sh.tasks[tid].acts.len();
     for pc in 0..n {
         match sh.pert(tid, pc) {
@@ -340,7 +339,7 @@ fn run_blocking<'env>(
             Act::Panic => {
                 panic!("verif: scripted panic");
             }
-            Act::Hook(k, ms) => hooks.push(register_hook(ctx, &sh, tid, *k, *ms)),
+            Act::Hook(k, ms) => register_hook(ctx, &sh, tid, *k, *ms),
             Act::Held => {
                 while !sh.hook_released.load(Ordering::SeqCst) {
                     std::thread::sleep(std::time::Duration::from_micros(50));
@@ -350,7 +349,6 @@ fn run_blocking<'env>(
             }
         }
     }
-    drop(hooks);
     end_guard.armed = false;
     sh.log([6, t, 0, 0]);
     Ok(())
